@@ -10,7 +10,7 @@ from .. import gen, e1, inv, oracles, runsim, taps, world
 from ..oracles import V
 from .base import Prop, verdict, bump, event_kinds, ngrams
 
-OPS = ['wntr', 'epanet', 'reset_wntr', 'copy_wntr', 'pickle_wntr', 'json_wntr', 'fail_wntr', 'abort_wntr', 'wntr_noreset']
+OPS = ['wntr', 'epanet', 'reset_wntr', 'reset_same_sim', 'copy_wntr', 'pickle_wntr', 'json_wntr', 'fail_wntr', 'abort_wntr', 'wntr_noreset']
 
 
 def norm_dict(wn):
@@ -50,7 +50,7 @@ class C11(Prop):
     thorough_runs = 20000
     chunk = 8
     rule = ('one case = one generated world (controls on status and valve settings, leaks, rules, PDD) and a seeded history of 3-7 operations from '
-            '{run WNTR after reset, run EPANET, deepcopy-and-run, pickle-and-run, JSON-reload-and-run, run with a failing solve (convergence_error '
+            '{run WNTR after reset with a new or with the SAME simulator object, run EPANET, deepcopy-and-run, pickle-and-run, JSON-reload-and-run, run with a failing solve (convergence_error '
             'either way), run aborted by an exception at solve k, run again without reset}; after EVERY operation the JSON-normalised to_dict '
             'of the model must equal the one taken before the first run; every WNTR run from the reset state (same object, copy, reload) must '
             'reproduce the first run (index and statuses exact, values to same-trajectory noise). non-trivial = the history contains >= 2 '
@@ -80,7 +80,7 @@ class C11(Prop):
         n = rng.irange(3, 7)
         hist = ['wntr']
         for _ in range(n - 1):
-            hist.append(rng.wpick([('epanet', 2), ('reset_wntr', 3), ('copy_wntr', 2), ('pickle_wntr', 2), ('json_wntr', 2),
+            hist.append(rng.wpick([('epanet', 2), ('reset_wntr', 3), ('reset_same_sim', 3), ('copy_wntr', 2), ('pickle_wntr', 2), ('json_wntr', 2),
                                    ('fail_wntr', 2), ('abort_wntr', 2), ('wntr_noreset', 1)]))
         if 'epanet' in hist and scn['options'].get('report_step') == 'ALL':
             scn['options']['report_step'] = scn['options']['hyd_step']     # the INP writer cannot print 'ALL'
@@ -116,13 +116,17 @@ class C11(Prop):
                 field = df.split(':')[0].split('/')[-1]
                 viol.append(V('c11.definition_changed', '%s.%s' % (label, field), 'after %s: %s' % (label, df[:300])))
 
-        def run(w, plan=None, ce=False, label='wntr', compare=True):
+        holder = {}     # the simulator object of the runs on `wn` itself; 'reset_same_sim' reuses it
+
+        def run(w, plan=None, ce=False, label='wntr', compare=True, same_sim=False):
             nonlocal first, first_rec, ncomp, sims, nruns
             s2 = scn
             if ce:
                 s2 = world.clone(scn)
                 s2['run']['convergence_error'] = True
-            out = runsim.run_world(s2, plan=plan, wn=w)
+            if w is wn and not same_sim:
+                holder.clear()          # a fresh simulator object, remembered for a later 'reset_same_sim'
+            out = runsim.run_world(s2, plan=plan, wn=w, sim_holder=(holder if w is wn else None))
             nruns += 1
             out.tables = e1.concat(out.parts) if out.parts else None
             sims += out.rec.steps[-1]['t'] if out.rec.steps else 0
@@ -135,9 +139,11 @@ class C11(Prop):
             hist_sig.append(op)
             if h.get('noise'):
                 e1.perturb_evalorder(h['noise'])
-            if op in ('wntr', 'reset_wntr'):
+            if op in ('wntr', 'reset_wntr', 'reset_same_sim'):
                 wn.reset_initial_values()
-                out = run(wn)
+                if op == 'reset_same_sim' and holder.get('sim') is not None:
+                    bump(c, 'fired.rerun.same_simulator_object')
+                out = run(wn, same_sim=(op == 'reset_same_sim'))
                 check_dict(wn, op)
                 if out.exc is not None and not isinstance(out.exc, NotImplementedError):
                     if isinstance(out.exc, taps.WsimStepCap):
